@@ -215,6 +215,15 @@ def model_and_replay(ctx, cov):
     for c in judge:
         for n in c["src"] + c["nodes"]:
             n.setdefault("det", 0)
+    # self-test of the binding: a recorded run with one registered key negated must be rejected by the Layer-A judge
+    probe = next((c for c in judge if c["results"] and c["results"][0] not in (0, FK)), None)
+    if probe is not None:
+        bad = json.loads(json.dumps(probe))
+        bad["id"] = 0
+        bad["results"][0] = -bad["results"][0]
+        if tlc.judge_batch("JudgeBreakCycles", [bad], nproc=1, tag="c09st")[0]["meaning"]:
+            raise MachineryError("self-test: JudgeBreakCycles accepted a corrupted run")
+        cov["selftest_corrupted_run_rejected"] = True
     J = tlc.judge_batch("JudgeBreakCycles", judge, nproc=ctx.nproc, tag="c09bc")
     for c in judge:
         j = J[c["id"]]
